@@ -509,6 +509,23 @@ fn sc_liquidity(t: &mut Tracer, ss_decs: [u8; 2], name: &str) {
     let (a, b, c) = (w.user(2), w.user(3), w.user(4));
     let lp = w.user(1);
     let d = |x: u8| 10u128.pow(x as u32);
+    // every provider leaves: the supply is exactly the locked minimum; the next deposit is an ordinary, proportional one
+    for (kind, id) in [(CP, "left"), (SS(85), "lefts")] {
+        let o = w.user(0);
+        let ok = w.creation_funds();
+        w.create_pool(&o, &["uusdc", "uusdt"], &[6, 6], fees(100, 100, 0, &[]), kind, Some(id), &ok);
+        let pid = format!("o.{id}");
+        w.provide(&a, &pid, &sorted(vec![coin(1_000_000, "uusdc"), coin(1_000_000, "uusdt")]), None, None, None, None, None);
+        let lpd = w.s.lp_denom(&pid);
+        let all = w.s.bal(&a, &lpd);
+        w.withdraw(&a, &pid, &[coin(all, lpd.clone())]);
+        w.provide(&b, &pid, &sorted(vec![coin(2_000_000, "uusdc"), coin(2_000_000, "uusdt")]), None, None, None, None, None);
+        w.provide(&b, &pid, &[coin(10_001, "uusdc")], None, None, None, None, Some(Decimal::percent(50)));
+        let allb = w.s.bal(&b, &lpd);
+        w.withdraw(&b, &pid, &[coin(allb, lpd.clone())]);
+        w.provide(&c, &pid, &[coin(10_001, "uusdc")], None, None, None, None, Some(Decimal::percent(50)));
+        w.swap(&c, &pid, &[coin(100, "uusdc")], "uusdt", None, Some(Decimal::percent(50)), None);
+    }
     // balanced, skewed, with tolerance
     w.provide(&a, "o.cp1", &sorted(vec![coin(5_000 * d(6), "uusdc"), coin(7_000 * d(6), "uusdt")]), None, None, None, None, None);
     w.provide(&a, "o.cp1", &sorted(vec![coin(5_000 * d(6), "uusdc"), coin(9_000 * d(6), "uusdt")]), None, None, None, None, None);
